@@ -147,7 +147,13 @@ func (e *Exec) execInstr(in ssa.Instruction, probe bool) {
 			e.check("panic", False, "explicit panic reachable")
 		}
 		e.g = False
-	case *ssa.Send, *ssa.Select:
+	case *ssa.Send:
+		// a send changes no modelled state: channel contents are not modelled, blocking is decided separately by the
+		// structural rule on channel capacities (C11)
+		e.val(x.Chan)
+		e.val(x.X)
+		e.vc.Note("channel send in %s treated as a no-op on the modelled state (channel contents and blocking are not modelled)", fnName(e.fn))
+	case *ssa.Select:
 		e.Unsupported("channel operation (outside the subset)")
 	case *ssa.SliceToArrayPointer, *ssa.MultiConvert:
 		e.Unsupported("%T", in)
